@@ -279,7 +279,7 @@ func init() {
 	sched.Register(&sched.Scenario{Name: "litmus", Custom: func(env sched.Env) *sched.Report {
 		total := &sched.Report{Outcomes: map[string]int64{}, EndReasons: map[string]int64{}, ByClass: map[string]int64{}, Complete: true}
 		for _, l := range lits {
-			r := sched.Explore(sched.Config{Name: l.name, Bounds: l.bounds, TimerBudget: l.timers, KeepGoing: true, AllowDeadlock: true, Iterative: true}, l.body)
+			r := sched.Explore(sched.Config{Name: l.name, Bounds: l.bounds, TimerBudget: l.timers, KeepGoing: true, AllowDeadlock: true, PostPoints: true, Iterative: true}, l.body)
 			got := outcomes(r)
 			total.Execs += r.Execs
 			total.Steps += r.Steps
